@@ -18,6 +18,7 @@ use az::SaturatingAs;
 #[cfg_attr(feature = "defmt", derive(::defmt::Format))]
 pub struct StyledPixelsIterator<C> {
     styled_scanlines: StyledScanlines,
+    fill_scanlines: Scanlines,
 
     stroke_left: Scanline,
     fill: Scanline,
@@ -34,10 +35,11 @@ impl<C: PixelColor> StyledPixelsIterator<C> {
 
         Self {
             styled_scanlines: StyledScanlines::new(&stroke_area, &fill_area),
+            fill_scanlines: Scanlines::new(&fill_area),
             stroke_left: Scanline::new_empty(0),
             fill: Scanline::new_empty(0),
             stroke_right: Scanline::new_empty(0),
-            stroke_color: style.stroke_color,
+            stroke_color: style.effective_stroke_color(),
             fill_color: style.fill_color,
         }
     }
@@ -86,8 +88,8 @@ where
                     return Some(pixel);
                 }
 
-                let scanline = self.styled_scanlines.next()?;
-                self.fill = scanline.fill();
+                // Without a visible stroke `draw` only rasterizes the fill area.
+                self.fill = self.fill_scanlines.next()?;
             },
             (None, None) => None,
         }
